@@ -114,7 +114,9 @@ CHECKS = {
                 "second reach the tower and after give-up it is shown unreachable with every notified appointment pending; after recovery, within max-retry-time + "
                 "auto-retry-delay + 2 max-intervals + 8 s, it is shown reachable with nothing pending and every notified appointment has a verifying receipt; the hooked "
                 "retry-loop trace never shows two loops of one tower active at once; retrytower is accepted in the documented settled states; no panic text. "
-                "distinct = distinct (kind, recovery instant, manual retry, scenario id).",
+                "Every second scenario ends with a flap: right after the retrier has delivered, the tower goes down again, one more revocation arrives, the tower is back "
+                "250 ms later; that revocation too must be delivered within the same bound. The 'shown unreachable after give-up' check waits up to 12 s for the status "
+                "to settle (the give-up instant is the product's wall clock). distinct = distinct (kind, recovery instant, manual retry, scenario id).",
         "assumptions": [
             "the product defines its back-off in wall-clock seconds: bounds are >= 3x the configured delays plus 8 s slack; unbounded 'eventually' is restated as this bound",
             "one tower per scenario; timing-independent signals (missing rows, floods, overlapping loops, panic text) are verdicts immediately",
@@ -126,7 +128,8 @@ CHECKS = {
         "level": "exploration",
         "rule": "case = one reply of a fake tower to the real client binary: to registertower or to add_appointment, either a raw misbehaviour (non-JSON, wrong shape, signature "
                 "by another key, undecodable signature, empty, 3 MB body, HTTP 500, connection closed) or a structured mutation of a valid reply (every field dropped / null / "
-                "string / number / negative / huge / array / empty / zero / truncated / odd length; correctly signed registrations that do not extend expiry or slots). Oracle: a "
+                "string / number / negative / huge / array / empty / zero / truncated / odd length; correctly signed registrations that do not extend expiry or slots, incl. more slots with an earlier expiry and the reverse). Oracle: the client's view "
+                "of (slots, expiry) after a registration reply either is unchanged or grew in both; a "
                 "registration is recorded only if the stored receipt verifies under the tower id the user gave and strictly extends the previous one; an acknowledgement signed "
                 "by another key => status misbehaving, proof row persisted, zero further requests to that tower on later revocations; after every reply the process is alive, "
                 "stderr has no panic text, listtowers answers and the next notification is answered. Each client process ends with the retry-path variant: the tower is down when "
@@ -268,7 +271,8 @@ CHECKS = {
         "level": "exploration",
         "rule": "case = one HTTP/1.1 request sent over a raw socket to the real warp router (teos::api::http::serve on loopback) in front of the real InternalAPI over an "
                 "E1 tower: per endpoint a valid request, or a structured mutation of one (drop / retype / empty / resize every field, non-hex characters, appointment "
-                "sub-fields dropped / emptied / negative / huge, null appointment, nested JSON up to 65 levels, arrays / strings / numbers instead of the object), raw "
+                "sub-fields dropped / emptied / negative / huge, null appointment, nested JSON up to 65 levels, arrays / strings / numbers instead of the object, long "
+                "multi-byte (non-ASCII) strings as wrong-typed field values / as the whole body / as unknown keys at random byte alignments), raw "
                 "bytes, bodies padded to the size limit -1/0/+1, oversized bodies, every other method, unknown paths, missing content type; 5 of every 40 requests are "
                 "sent while the tower believes bitcoind is unreachable. Oracle per request: an answer arrives; status is 200, 4xx or 503; for (existing endpoint, POST, "
                 "acceptable size, JSON content type) a non-200 body is a JSON object {error, error_code} with a documented code and never 255, a 200 body carries "
